@@ -7,8 +7,9 @@ pid, n = sys.argv[1], sys.argv[2]
 i = sys.argv.index('--')
 needs = ' '.join(sys.argv[3:i])
 checks = sys.argv[i+1:]
-src = f'/tmp/wt-out/{pid}'
-dst = f'/verif/seeded/{pid}-{n}'
+base = os.environ.get('SEED_SRC', '/tmp/wt-out')
+src = f'{base}/{pid}'
+dst = f'/verif/seeded/{pid}-{int(n) + int(os.environ.get("SEED_OFFSET", "0"))}'
 os.makedirs(dst, exist_ok=True)
 shutil.copy(f'{src}/patch{n}.diff', f'{dst}/patch.diff')
 shutil.copy(f'{src}/demo{n}.rs', f'{dst}/demo.rs')
@@ -30,11 +31,11 @@ finally:
     subprocess.run(['git','-C','/repo','checkout','--','.'])
 meta = {
     'property': pid,
-    'breaks': open(f'/tmp/wt-out/prop_{pid}.json').read() and json.load(open(f'/tmp/wt-out/prop_{pid}.json'))['title'],
+    'breaks': json.load(open(f'{base}/prop_{pid}.json'))['title'],
     'needs_to_manifest': needs,
     'origin': 'fresh sub-agent given only the property text and a scratch worktree',
     'confirmed_by_me': confirm.strip().split('\n'),
-    'commands': [f'tools/confirm_seeded.sh /tmp/wt/{pid} patch.diff demo.rs  (clean: demo passes; patched: existing suite passes, demo fails)',
+    'commands': [f'tools/confirm_seeded.sh <scratch worktree of /repo> patch.diff demo.rs  (clean: demo passes; patched: existing suite passes, demo fails)',
                  f'git -C /repo apply seeded/{pid}-{n}/patch.diff && ./check <id> --tier quick ; git -C /repo checkout -- .'],
     'detection': results,
 }
